@@ -235,7 +235,8 @@ CONTRACTS = {
             A('bl_exc, bl_exc_line, bl_exc_col, g_shots, g_only_main, g_spec_shots'),
             # C13: whatever the annotation value, the loader answers with a categorised diagnostic, never a raw C++ exception
             E('loader.main_and_shots.only_semantic_errors', 'bl_exc == 0 || bl_exc == EXC_SEM', ['C13', 'C12']),
-            E('loader.main.two_mains_are_rejected', '(gm < gm2 && gm2 < g_nfns && IS_MAIN(gm) && IS_MAIN(gm2)) ==> bl_exc != 0', ['C13', 'C16']),
+            # (helper, not a clause of a claimed property: C19 - exactly one main across modules - is not claimed; the analyser rejects a second `main` as a redeclaration anyway)
+            E('loader.main.two_mains_are_rejected', '(gm < gm2 && gm2 < g_nfns && IS_MAIN(gm) && IS_MAIN(gm2)) ==> bl_exc != 0', []),
             E('loader.main.single_main_without_annotation_is_accepted', '(gm < g_nfns && IS_MAIN(gm) && !g_fns[gm].hasShotsAnnotation && g_only_main) ==> bl_exc == 0', ['C13']),
             # C17: the value of @shots(N) on main is what the program carries; no annotation means a single run
             E('loader.shots.annotation_value_is_carried', '(bl_exc == 0 && gm < g_nfns && IS_MAIN(gm) && g_only_main && g_fns[gm].hasShotsAnnotation && ' + COND + ') ==> (g_shots.first && g_shots.second == STOI(g_anns[gm * ANMAX + ga].value.id))', ['C17']),
